@@ -812,6 +812,15 @@ LEVEL_NOTE = ("Theorems are about the model (Model/Parser.lean, Model/Render.lea
 TECHNIQUE = "Lean 4 printer/parser round-trip proof by induction over trees + differential correspondence + parenthesisation oracle"
 
 
+_check_c02 = check
+
+
+def check(ctx):
+    _check_c02(ctx)
+    import core
+    core.script_route(ctx)
+
+
 # ---- refinement lemmas of the unified pipeline model for this property (Props/Pipeline2.lean): the fragment this check's
 # theorems are about IS what the whole-program model computes on the fragment's sub-language
 import pipeline as _pl
